@@ -148,9 +148,11 @@ Clauses_rt_json(ev) ==
 Clauses_rt_tsv(ev) ==
   LET src == ev.pre[ev.recv]
       key == ev.args.header_key
-      exportable == key = "" \/ (src.omd.has /\ \A k \in 1..Len(src.omd.rows) :
+      \* the category is exported for the observations that have it (as a non-empty list of text)
+      exportable == key = "" \/ (src.omd.has /\ \E k \in 1..Len(src.omd.rows) :
                                    \E e \in SeqSet(src.omd.rows[k]) : e[1] = key /\ e[2] = "l" /\ Len(e[3]) > 0)
-  IN IF IsEmptyTable(src) \/ ~exportable THEN [C03_out_of_domain |-> TRUE]
+      hasKey(k) == \E e \in RowAt(src, "observation", k) : e[1] = key /\ e[2] = "l" /\ Len(e[3]) > 0
+  IN IF IsEmptyTable(src) \/ ~exportable \/ ev.obs.wrote = "skipped" THEN [C03_out_of_domain |-> TRUE]
      ELSE IF ev.obs.wrote # "ok" THEN [C03_write_succeeds |-> FALSE]
      ELSE IF Failed(ev) THEN [C03_text_reads_back |-> FALSE]
      ELSE LET got == ev.post[ev.res] IN
@@ -158,7 +160,7 @@ Clauses_rt_tsv(ev) ==
        C03_values_exact |-> got.mat = src.mat,
        C03_exported_category_preserved |->
           key # "" =>
-            \A k \in 1..Len(src.obs) :
+            \A k \in 1..Len(src.obs) : hasKey(k) =>
                {e \in RowAt(got, "observation", k) : e[1] = key} = {e \in RowAt(src, "observation", k) : e[1] = key},
        C07_inputs_unchanged |-> FrameRule(ev, {ev.res}),
        C16_writing_leaves_content_unchanged |-> FrameRule(ev, {ev.res})]
